@@ -173,6 +173,85 @@ where
     }
 }
 
+/// Unsupported and inconsistent degree bounds at every entry point: every bound 0..=max+2 against keys
+/// whose enforced list has gaps.  A bound the key does not serve (or one below the polynomial's degree)
+/// must be refused by commit; a commitment made under a served bound and shown to the verifier under an
+/// unserved one must never be accepted.
+pub fn degree_bounds<S: Sch>(rec: &mut Rec)
+where
+    S: crate::checks::c04::UniSch,
+{
+    use crate::checks::c04::{admissible, eff};
+    let cfgs: Vec<KeyCfg> = if S::NAME == "IPA" { vec![KeyCfg::uni(7, 3, 1, None), KeyCfg::uni(7, 7, 1, None)] } else { vec![KeyCfg::uni(7, 6, 1, Some(vec![2, 4, 6])), KeyCfg::uni(5, 4, 1, Some(vec![0, 3]))] };
+    for cfg in cfgs {
+        let (s, served) = eff::<S>(&cfg);
+        let top = cfg.max + 2;
+        let r = rho_stream::<S::F>(rec.seed, 1, s + 3);
+        let z = S::point(rho::<S::F>(rec.seed, 5));
+        let mut todo = Vec::new();
+        for deg in 0..=2usize.min(s) {
+            for b in 0..=top {
+                let id = format!("{}/bounds/{}/deg={}/b={}", S::NAME, cfg.id(), deg, b);
+                if rec.take(&id) {
+                    todo.push((id, deg, b));
+                }
+            }
+        }
+        if todo.is_empty() {
+            continue;
+        }
+        let keys = match build_keys::<S>(&cfg, rec.seed) {
+            Ok(k) => k,
+            Err(_) => continue,
+        };
+        rec.scope(format!("{}: key {} serving bounds {:?} up to degree {}; every bound 0..={} at commit, and as the label shown to check for commitments made under each served bound", S::NAME, cfg.id(), served, s, top));
+        for (id, deg, b) in todo {
+            rec.dim("scheme", S::NAME);
+            let p = S::poly(&r[..=deg]);
+            let adm = admissible::<S>(&cfg, deg, Some(b));
+            let res = do_commit::<S>(&keys.ck, &[lp::<S>("p", p.clone(), Some(b), None)], None);
+            if !adm {
+                let why = if b < deg { "degree-bound-below-degree" } else { "unsupported-degree-bound" };
+                refused(rec, S::NAME, "commit", why, &id, res.is_ok(), format!("degree {} committed under bound {} (key serves {:?}, supported {})", deg, b, served, s));
+            } else {
+                rec.count_points(1);
+                rec.class(if res.is_ok() { "in-domain-served" } else { "in-domain-refused" });
+                if let Err(o) = res {
+                    rec.violation(&format!("C17/{}/commit/in-domain-refused", S::NAME), &id, format!("degree {} under served bound {} refused: {}", deg, b, o.short()));
+                }
+                continue;
+            }
+            // the verifier's side: an honest transcript under every served bound, shown under b
+            let made: Vec<usize> = (0..=s).filter(|m| *m != b && admissible::<S>(&cfg, deg, Some(*m))).collect();
+            for m in made {
+                let c = match commit_set::<S>(&keys, vec![lp::<S>("p", p.clone(), Some(m), None)], rec.seed, 0) {
+                    Ok(c) => c,
+                    Err(_) => continue,
+                };
+                let s1 = match open_single::<S>(&keys, &c, &[0], &z, 0, rec.seed, 0) {
+                    Ok(x) => x,
+                    Err(_) => continue,
+                };
+                let shown = LabeledCommitment::new("p".to_string(), c.comms[0].commitment().clone(), Some(b));
+                let d = check_single::<S>(&keys, &[&shown], &z, &s1.values, &s1.proof, 0, rec.seed, 0);
+                rec.count_points(1);
+                rec.op(1);
+                rec.class(if d.accepted() {
+                    "answered"
+                } else if d == Dec::Rej {
+                    "rejected-not-refused"
+                } else {
+                    "refused"
+                });
+                rec.obs(&format!("{}|check|bound|{}", S::NAME, d.short()));
+                if d.accepted() {
+                    rec.violation(&format!("C17/{}/check/unsupported-degree-bound", S::NAME), &id, format!("commitment made under bound {} verified under the unserved bound {} (key serves {:?}, supported {}): {}", m, b, served, s, d.short()));
+                }
+            }
+        }
+    }
+}
+
 /// Wrong numbers of variables for the multilinear / multivariate schemes.
 pub fn variables<S: Sch>(rec: &mut Rec) {
     let (nv_key, others): (usize, Vec<usize>) = match S::NAME {
@@ -415,6 +494,9 @@ pub fn run(rec: &mut Rec) {
     sizes_uni::<SMar>(rec);
     sizes_uni::<SSon>(rec);
     sizes_uni::<SIpa>(rec);
+    degree_bounds::<SMar>(rec);
+    degree_bounds::<SSon>(rec);
+    degree_bounds::<SIpa>(rec);
     variables::<SPst>(rec);
     variables::<SHyr>(rec);
     variables::<SMll>(rec);
